@@ -277,7 +277,7 @@ pub fn run_simcli(bytes: &[u8], route: &Route, opts: &Opts, env: &SimEnv, extra_
         });
     }
     // wall-clock watchdog against a run-away process (ordinary runs take milliseconds)
-    let limit = std::time::Duration::from_secs(std::env::var("VERIF_WATCHDOG_S").ok().and_then(|s| s.parse().ok()).unwrap_or(600));
+    let limit = std::time::Duration::from_secs(std::env::var("VERIF_WATCHDOG_S").ok().and_then(|s| s.parse().ok()).unwrap_or(180));
     let t0 = std::time::Instant::now();
     let mut so = child.stdout.take().unwrap();
     let mut se = child.stderr.take().unwrap();
